@@ -13,7 +13,7 @@ let handle (toks : string list) : string =
     let p = Gen.pre g in
     String.concat " " [string_of_z g; string_of_z p; string_of_z (Gen.post p)]
   | "cba" :: rest ->
-    (match List.map z_of_string rest with
+    (match Stdlib.List.map z_of_string rest with
      | [as_s; as_n; va_s; va_n; bound; drift; st; re_s; re_n; mo_s; mo_n] ->
        let status = (match Client.status_of_code st with Some s -> s | None -> Client.Unknown) in
        let c = { Client.c_as_of = { Mach.ts_sec = as_s; Mach.ts_nsec = as_n };
@@ -39,7 +39,7 @@ let handle (toks : string list) : string =
     string_of_z (Client.status_code (Bound.classify (z_of_string leap) (z_of_string itv) age))
   | "upd" :: drift :: n :: rest ->
     let rec msgs k toks acc =
-      if k = 0 then List.rev acc else
+      if k = 0 then Stdlib.List.rev acc else
       match toks with
       | "r" :: d :: e :: o :: leap :: itv :: kind :: secs :: nanos :: phc :: as_s :: as_n :: tl ->
         let age = if z_of_string kind = Z0 then Some (z_of_string secs, z_of_string nanos) else None in
@@ -51,12 +51,63 @@ let handle (toks : string list) : string =
     (match Updater.urun (Updater.u_init (z_of_string drift)) ms with
      | None -> "panic"
      | Some (_, cs) ->
-       String.concat " " (string_of_int (List.length cs) ::
-         List.concat_map (fun c ->
+       String.concat " " (string_of_int (Stdlib.List.length cs) ::
+         Stdlib.List.concat_map (fun c ->
            [string_of_z c.Client.c_as_of.Mach.ts_sec; string_of_z c.Client.c_as_of.Mach.ts_nsec;
             string_of_z c.Client.c_void_after.Mach.ts_sec; string_of_z c.Client.c_void_after.Mach.ts_nsec;
             string_of_z c.Client.c_bound; string_of_z c.Client.c_drift;
             string_of_z (Client.status_code c.Client.c_status)]) cs))
+  | "cli" :: kind :: r :: [] ->
+    (* kind 0: option omitted; 1: value r (as parsed by clap into a u32, or outside u32) *)
+    (match Cli.cli_ppb (if kind = "0" then None else Some (z_of_string r)) with
+     | Cli.CliOk p -> "ok " ^ string_of_z p
+     | Cli.CliRejected -> "rejected")
+  | "shm" :: rest ->
+    let ord_of s = match int_of_string s with
+      | 0 -> Machine.Rlx | 1 -> Machine.Acq | 2 -> Machine.Rel | 3 -> Machine.AcqRel | _ -> Machine.SeqCst in
+    let fence_of s = if int_of_string s < 0 then None else Some (ord_of s) in
+    let code_of = function Machine.Rlx -> 0 | Machine.Acq -> 1 | Machine.Rel -> 2 | Machine.AcqRel -> 3 | Machine.SeqCst -> 4 in
+    (match rest with
+     | wl :: wo :: wf :: we :: rv :: g1 :: rf :: g2 :: nc :: retries :: tl ->
+       let n = int_of_string nc in
+       let rec take k l acc = if k = 0 then (Stdlib.List.rev acc, l) else (match l with x :: t -> take (k - 1) t (x :: acc) | [] -> failwith "shm: short") in
+       let (wo_l, tl) = take n tl [] in
+       let (ro_l, tl) = take n tl [] in
+       let c = { Machine.c_w_load = ord_of wl; c_w_odd = ord_of wo; c_w_fence = fence_of wf; c_w_even = ord_of we;
+                 c_r_ver = ord_of rv; c_r_g1 = ord_of g1; c_r_fence = fence_of rf; c_r_g2 = ord_of g2;
+                 c_cells = nat_of_int n; c_w_order = Stdlib.List.map (fun x -> nat_of_int (int_of_string x)) wo_l;
+                 c_r_order = Stdlib.List.map (fun x -> nat_of_int (int_of_string x)) ro_l;
+                 c_retries = n_of_int (int_of_string retries) } in
+       let rec toks l acc = match l with
+         | [] -> Stdlib.List.rev acc
+         | "W" :: t -> toks t (Machine.TW :: acc)
+         | "C" :: t -> toks t (Machine.TCrash :: acc)
+         | "S" :: t -> toks t (Machine.TRestart :: acc)
+         | "N" :: t -> toks t (Machine.TNewReader :: acc)
+         | "R" :: j :: k :: t ->
+           let ch = if int_of_string k < 0 then None else Some (nat_of_int (int_of_string k)) in
+           toks t (Machine.TR (nat_of_int (int_of_string j), ch) :: acc)
+         | x :: _ -> failwith ("shm: bad token " ^ x) in
+       let ts = (match tl with _ntok :: t -> toks t [] | [] -> []) in
+       let (m, obs) = Machine.m_run (Machine.m_init c) ts in
+       let loc_s = function Machine.LVer -> "v" | Machine.LGen -> "g" | Machine.LCell i -> "c" ^ string_of_int (int_of_nat i) in
+       let kind_s = function Machine.ALoad -> "L" | Machine.AStore -> "S" | Machine.AFence -> "F" | Machine.ACellW -> "W" | Machine.ACellR -> "R" in
+       let cells l = String.concat "," (Stdlib.List.map string_of_z l) in
+       let ob = function
+         | Machine.OAccess (who, it) ->
+           Printf.sprintf "A%d.%s.%s.%d.%s" (int_of_nat who) (kind_s it.Machine.t_kind)
+             (match it.Machine.t_kind with Machine.AFence -> "-" | _ -> loc_s it.Machine.t_loc)
+             (code_of it.Machine.t_ord) (string_of_z it.Machine.t_val)
+         | Machine.ORet (j, r, rc) ->
+           (match r with
+            | Machine.RetCache -> Printf.sprintf "T%d.C.%s" (int_of_nat j) (cells rc)
+            | Machine.RetFresh -> Printf.sprintf "T%d.F.%s" (int_of_nat j) (cells rc)
+            | Machine.RetErr -> Printf.sprintf "T%d.E" (int_of_nat j))
+         | Machine.OSkip -> "K"
+         | Machine.OStuck -> "X" in
+       let mem = Machine.mem_of c m.Machine.m_w.Machine.w_log in
+       String.concat " " (Stdlib.List.map ob obs @ ["M." ^ cells mem])
+     | _ -> failwith "shm: bad header")
   | "gro" :: e :: d :: [] -> string_of_z (Client.growth (z_of_string e) (z_of_string d))
   | tag :: _ -> failwith ("unknown tag " ^ tag)
   | [] -> ""
